@@ -17,7 +17,7 @@ sys.path.insert(0, os.path.dirname(os.path.abspath(__file__)))
 SERVER = {'C03', 'C04', 'C05', 'C06', 'C07', 'C08', 'C09', 'C11', 'C12', 'C14',
           'C15', 'C16', 'C19', 'C20'}
 MODS = {'C13': 'prop_c13', 'C17': 'prop_c17', 'C10': 'prop_c10',
-        'C18': 'admin', 'C01': 'prop_c01'}
+        'C18': 'admin', 'C01': 'prop_c01', 'C02': 'prop_c02'}
 
 
 def main():
